@@ -14,7 +14,7 @@ import os
 import sys
 
 sys.path.insert(0, os.path.dirname(os.path.abspath(__file__)))
-from vlib import env, tlc, pool
+from vlib import env, tlc, pool, repodata
 from vlib.report import Check
 
 SPEC = os.path.join(env.SPEC, "TraceSummary")
@@ -144,7 +144,8 @@ def main():
 def trace_part(ck):
     tier = ck.tier
     nrun = 12 if tier == "quick" else 90
-    tasks = [{"op": "programs", "seed": ck.seed * 1000 + i, "index": i} for i in range(nrun)]
+    data_dir = repodata.copy_test_data(ck.wd, repodata.ASSEMBLE_FILES + repodata.CALL_FILES)
+    tasks = [{"op": "programs", "seed": ck.seed * 1000 + i, "index": i, "data_dir": data_dir} for i in range(nrun)]
     res = pool.map_tasks("impl.c14", tasks, mode="jit")
     events = []
     for t, rr in zip(tasks, res):
